@@ -20,6 +20,48 @@ def role_on_path(p):
     return None
 
 
+def offset_form(v):
+    """(byte indices, modulus, constant added) when v = (sum of the bytes at those indices of the first parameter) % modulus + constant"""
+    consts, terms = [], []
+
+    def add_terms(x, out_c, out_t):
+        while isinstance(x, tuple) and x[0] == "cast":
+            x = x[2]
+        if isinstance(x, tuple) and x[0] == "bin" and x[1] in ("Add", "AddW"):
+            add_terms(x[3], out_c, out_t)
+            add_terms(x[4], out_c, out_t)
+        elif const_val(x) is not None and isinstance(const_val(x), int):
+            out_c.append(const_val(x))
+        else:
+            out_t.append(x)
+    add_terms(v, consts, terms)
+    if len(terms) != 1 or not (isinstance(terms[0], tuple) and terms[0][0] == "bin" and terms[0][1] == "Rem"):
+        return None
+    modulus = const_val(terms[0][4])
+    c2, t2 = [], []
+    add_terms(terms[0][3], c2, t2)
+    if c2 or not isinstance(modulus, int):
+        return None
+    idx = []
+    for x in t2:
+        if isinstance(x, tuple) and x[0] == "elem" and isinstance(x[2], int) and len(x) > 3 and isinstance(x[3], tuple) and x[3][0][0] == "P" and is_param_load(x[3][0][1], 1):
+            idx.append(x[2])
+        elif isinstance(x, tuple) and x[0] == "model" and x[1] == "sum-of-bytes":
+            vw = x[2]
+            while isinstance(vw, tuple) and vw[0] == "upd":
+                vw = vw[1]
+            if isinstance(vw, tuple) and vw[0] == "model" and vw[1] == "view" and const_val(vw[3]) is not None and const_val(vw[4]) is not None \
+                    and contains(vw[2], lambda z: is_param_load(z, 1) or (isinstance(z, tuple) and z[0] == "ld" and z[1][0][0] == "P" and is_param_load(z[1][0][1], 1))):
+                idx.extend(range(const_val(vw[3]), const_val(vw[3]) + const_val(vw[4])))
+            else:
+                return None
+        else:
+            return None
+    if len(set(idx)) != len(idx):
+        return None
+    return (tuple(sorted(idx)), modulus, sum(consts))
+
+
 def run(env, rep):
     prog, ctx = env.prog, env.ctx
     rep.explanation = (
@@ -121,29 +163,25 @@ def run(env, rep):
     # ------------------------------------------------------------------ R2 offsets
     for nm, bk in (("client", "coff"), ("server", "soff")):
         row = spec["offset_schemes"][nm]
-        rets = [t for p in grammar.reads(env, b[bk].key).paths for t in p if t[0] == "returns"]
-        r = rets[0][1] if rets else ""
-        idx = sorted(int(x) for x in re.findall(r"elem\[(\d+)\]", r))
-        m = re.search(r"Rem (\d+)\) Add (\d+)\)$", r)
-        if not idx:
-            # the same bytes summed through an iterator over a sub-slice: data[a..b].iter().map(|x| *x as u32).sum()
-            exo = grammar.Extractor(env, b[bk].key, "r")
-            exo.probe = lambda it_, S_: S_.read((it_.L(0), ()))
-            exo.run()
-            for pth in exo.paths:
-                for tk in pth:
-                    if tk[0] == "probe":
-                        for x in subterms(tk[1]):
-                            if isinstance(x, tuple) and x[0] == "model" and x[1] == "sum-of-bytes":
-                                vw = x[2]
-                                while isinstance(vw, tuple) and vw[0] == "upd":
-                                    vw = vw[1]
-                                if isinstance(vw, tuple) and vw[0] == "model" and vw[1] == "view" and const_val(vw[3]) is not None and const_val(vw[4]) is not None \
-                                        and contains(vw[2], lambda z: is_param_load(z, 1) or (isinstance(z, tuple) and z[0] == "ld" and z[1][0][0] == "P" and is_param_load(z[1][0][1], 1))):
-                                    idx = list(range(const_val(vw[3]), const_val(vw[3]) + const_val(vw[4])))
+        # the value returned, evaluated with helpers followed in place: (sum of bytes) mod M + constants, however it is spelled
+        exo = grammar.trace(env, b[bk].key, "r", probe=lambda it_, S_: S_.read((it_.L(0), ())))
+        forms = set()
+        r = ""
+        for pth in exo.paths:
+            if not pth or pth[-1][0] != "end" or pth[-1][1] not in ("ok", "ret"):
+                continue
+            for tk in pth:
+                if tk[0] == "probe":
+                    forms.add(offset_form(tk[1]))
+                    r = stable(tk[1])
+        idx, modulus, base_c = [], None, None
+        if len(forms) == 1 and None not in forms:
+            idx, modulus, base_c = next(iter(forms))
+            idx = sorted(idx)
+        m = None
         shape = ctx.ret_shape(b[bk].key)
         d = shape["dom"] if shape else None
-        good = idx == row["bytes"] and m is not None and int(m.group(1)) == row["modulus"] and int(m.group(2)) == row["base"] and d is not None and [d.lo, d.hi] == row["range"]
+        good = idx == row["bytes"] and modulus == row["modulus"] and base_c == row["base"] and d is not None and [d.lo, d.hi] == row["range"]
         rep.check("C11.R2", "offset:%s" % nm, good, "%s scheme: (b%s+..+b%s) mod %d + %d in %s" % (nm, row["bytes"][0], row["bytes"][3], row["modulus"], row["base"], row["range"]),
                   "%s digest offset is computed as %s with range %s; the description says bytes %s, modulus %d, base %d, range %s" % (nm, r[:160], d, row["bytes"], row["modulus"], row["base"], row["range"]), b[bk].span)
         # the 32 digest bytes lie inside the packet and do not overlap the offset bytes
